@@ -572,7 +572,25 @@ func c15SendJoin(c *mon.Ctx, r *gen.Rand, sc *simScenario, b *simBranch) {
 	local := serverIdentity(c15local)
 	names := []string{"membership-join", "state-key-is-sender", "room-matches", "event-id-matches", "sender-of-requesting-server", "origin-signature-valid", "not-banned", "authoriser-local", "type-is-m.room.member"}
 	user := "@joiner:other.example"
-	for vi, vec := range guardVectors(r, len(names), 6) {
+	vecs := guardVectors(r, len(names), 6)
+	// the vector in which only "authoriser-local" is false comes twice: once with the remote authoriser alone (as before)
+	// and once more, at the end, with an ill-typed optional member next to it
+	onlyAuthoriser := func(v []bool) bool {
+		for i, b := range v {
+			if b == (i == 7) {
+				return false
+			}
+		}
+		return true
+	}
+	nOrig := len(vecs)
+	for _, v := range vecs[:nOrig] {
+		if onlyAuthoriser(v) {
+			vecs = append(vecs, append([]bool{}, v...), append([]bool{}, v...))
+			break
+		}
+	}
+	for vi, vec := range vecs {
 		membership := "join"
 		escapedLookalike := false
 		if !vec[0] {
@@ -599,7 +617,14 @@ func c15SendJoin(c *mon.Ctx, r *gen.Rand, sc *simScenario, b *simBranch) {
 			content.Set("join_authorised_via_users_server", ref.S(gen.Pick(r, []string{"@admin:elsewhere.example", "not a user id"})))
 			// ... next to an optional member of the wrong JSON type (ninth seeding round, C15-R: a lenient reading of the
 			// content that falls back to a partial decode then, and lost the authorising user on the way)
-			switch vi % 5 {
+			ill := vi % 5
+			if onlyAuthoriser(vec) {
+				ill = 0
+				if vi >= nOrig {
+					ill = 1 + vi%4
+				}
+			}
+			switch ill {
 			case 1:
 				content.Set("displayname", ref.I(5))
 			case 2:
